@@ -620,6 +620,9 @@ def main():
     for order in ("strain-first", "stress-first", "repeat"):
         configs.append({"sim": "elastic", "dim": 2, "mesh": "mixed", "law": "aniso" if order != "repeat" else "iso_stress", "order": order})
     configs.append({"sim": "elastic", "dim": 3, "law": "trans", "order": "strain-first"})
+    # element types whose stiffness and mass quadratures differ, curved edges (no rule is exact): energies and matrices must share the rule
+    configs.append({"sim": "elastic", "dim": 2, "mesh": "quad8_1", "law": "iso_stress", "order": "strain-first"})
+    configs.append({"sim": "elastic", "dim": 2, "mesh": "tri6_curved", "law": "iso_strain", "order": "stress-first"})
     # results requested right after a parameter change (nothing else has read the law since)
     configs.append({"sim": "elastic", "dim": 2, "mesh": "mixed", "law": "iso_stress", "order": "stress-first", "change": True})
     configs.append({"sim": "elastic", "dim": 2, "mesh": "mixed", "law": "iso_strain", "order": "strain-first", "change": True})
